@@ -311,6 +311,15 @@ func c04RecordAfterSuccess(c *Check, a *Anchors) {
 		return
 	}
 	before := upCall.Pos() < loop.Pos()
+	if a.LoopFn != body {
+		// the command loop lives in the body's tail: the query precedes it when it precedes the call of the tail
+		before = false
+		for _, call := range callsIn(body, false) {
+			if a.isTailCall(info, call) && upCall.Pos() < call.Pos() {
+				before = true
+			}
+		}
+	}
 	for _, t := range sourcesCheckers(c) {
 		name := t.Obj().Name()
 		up := c.P.Func(PkgFingerprint, name, "IsUpToDate")
